@@ -30,10 +30,10 @@ def check(v, tier, opts):
     v.functions.update(["tea_map::MapValidBasic::vcut (right x add_bounds)", "tea_map::MapValidBasic::vsorted_unique_idx (Keep::First, Keep::Last)",
                         "tea_map::MapValidBasic::vsorted_unique", "itertools tuple_windows / zip as compiled"])
     if tier == "quick":
-        v.bounds.append("quick: vcut with 1 value, E in 0..=3 edges, label counts 0..=E+1; vsorted_unique(_idx) N in {0,1,2,5}, Option<i32> "
-                        "(unconstrained run values) and f64 (run values -8..=8, NaN nulls)")
+        v.bounds.append("quick: vcut with 1 value, E in 0..=3 edges, label counts 0..=E+1; vsorted_unique(_idx) N in {0,1,2,5} for Option<i32> "
+                        "(unconstrained run values), N in {0,1,2} for f64 (run values -8..=8, NaN nulls)")
     else:
-        v.bounds.append("thorough: quick plus vcut with 2 values (E in 1..=3), vsorted_unique(_idx) N in {3,4,6}, leading-null Keep::Last at N in {3,5}")
+        v.bounds.append("thorough: quick plus vcut with 2 values (E in 1..=3), vsorted_unique(_idx) N in {3,4,6} (f64 also 5), leading-null Keep::Last at N in {3,5}")
     v.bounds.append("the extreme value excluded by the open-bounds harnesses (i32::MIN right-closed, i32::MAX left-closed) and Keep::Last "
                     "behind a leading null block have their own harnesses (c14_vcut_open_extreme_*, c14_unique_idx_last_leading_nulls_*)")
     v.outside.append("more than 3 edges / 4 labels; more than 2 values per call; non-ascending or null edges (vcut unwraps them); inputs whose "
